@@ -21,11 +21,146 @@ def _alarm(s: int, f: Any) -> None:
     raise _TO()
 
 
+_SKIP_MODULES = ("explorerscript.antlr",)
+
+
+def _containers() -> list[tuple[Any, str, Any]]:
+    """every module-level and class-level mutable container (and lru_cache) of the explorerscript package: the places
+    where state can survive a call without being reachable from the objects the caller holds"""
+    import sys
+
+    out = []
+    for mname, mod in list(sys.modules.items()):
+        if not mname.startswith("explorerscript") or mod is None or mname.startswith(_SKIP_MODULES):
+            continue
+        for k, v in list(vars(mod).items()):
+            if k.startswith("__"):
+                continue
+            if isinstance(v, (dict, list, set)) or hasattr(v, "cache_clear"):
+                out.append((mod, k, v))
+            if isinstance(v, type) and getattr(v, "__module__", None) == mname:
+                for ak, av in list(vars(v).items()):
+                    if ak.startswith("_") and ak.endswith("_"):
+                        continue  # dunder and Enum tables
+                    if isinstance(av, (dict, list, set)) or hasattr(av, "cache_clear"):
+                        out.append((v, ak, av))
+    return out
+
+
+def _snapshot() -> list[tuple[Any, Any]]:
+    return [(v, copy.copy(v) if isinstance(v, (dict, list, set)) else None) for _o, _k, v in _containers()]
+
+
+def _restore(snap: list[tuple[Any, Any]]) -> None:
+    for v, saved in snap:
+        if saved is None:
+            v.cache_clear()
+        elif isinstance(v, dict):
+            v.clear()
+            v.update(saved)
+        elif isinstance(v, list):
+            v[:] = saved
+        else:
+            v.clear()
+            v |= saved
+    # containers that did not exist at snapshot time (created lazily) are emptied
+    known = {id(v) for v, _s in snap}
+    for _o, _k, v in _containers():
+        if id(v) not in known:
+            if hasattr(v, "cache_clear"):
+                v.cache_clear()
+            else:
+                v.clear()
+
+
+def collision_programs() -> list[tuple[str, Any]]:
+    """inputs that share texts between different roles and nesting depths (keys a careless memo would confuse)"""
+    from spec.families import op, C
+
+    out = []
+    cond = ("c_neg", False, "debug")
+    for ti, text in enumerate(("Hello there", "It's", "x")):
+        for depth in range(3):
+            for role in ("const", "lang", "both", "swapped"):
+                if role == "const":
+                    stmts = [op("debug_Print", ("str", text))]
+                elif role == "lang":
+                    stmts = [op("message_Talk", ("lstr", {"english": text}))]
+                elif role == "both":
+                    stmts = [op("debug_Print", ("str", text)), op("message_Talk", ("lstr", {"english": text}))]
+                else:
+                    stmts = [op("message_Talk", ("lstr", {"english": text, "german": text})), op("debug_Print", ("str", text), ("str", text))]
+                body = stmts
+                for d in range(depth):
+                    body = [("if", d % 2 == 1, [cond], body, [], None)]
+                out.append((f"collide.{ti}.{depth}.{role}", {"routines": [("def", 0, body + [("ctrl", "end")])]}))
+    return out
+
+
+def _import_histories() -> str | None:
+    """one compiler object reused for files in different directories that spell their import the same way"""
+    import os
+    import shutil
+    import tempfile
+    from explorerscript.ssb_converting.ssb_compiler import ExplorerScriptSsbCompiler
+    from spec.ssb_machine import norm_param
+
+    d = tempfile.mkdtemp(prefix="verif_c11_")
+    try:
+        mains = []
+        for sub, tag in (("dir_a", "a"), ("dir_b", "b"), ("dir_b/deeper", "c")):
+            os.makedirs(os.path.join(d, sub, "inc"), exist_ok=True)
+            with open(os.path.join(d, sub, "lib.exps"), "w") as fh:
+                fh.write(f"macro greet($x) {{ from_{tag}($x); }}")
+            with open(os.path.join(d, sub, "inc", "more.exps"), "w") as fh:
+                fh.write(f"macro more() {{ more_{tag}(); }}")
+            main = os.path.join(d, sub, "main.exps")
+            with open(main, "w") as fh:
+                fh.write('import "./lib.exps"; import "./inc/more.exps"; def 0 { ~greet(1); ~more(); end; }')
+            mains.append(main)
+
+        def res(c: Any) -> Any:
+            return ([[(o.offset, o.op_code.name, [norm_param(q) for q in o.params]) for o in r] for r in c.routine_ops],
+                    c.source_map.serialize(), sorted(c.imports))
+
+        def comp(c: Any, path: str) -> Any:
+            c.compile(open(path).read(), path)
+            return res(c)
+
+        fresh = [comp(ExplorerScriptSsbCompiler("$PERFORMANCE_PROGRESS_LIST", []), m) for m in mains]
+        for order in ([0, 1, 2], [2, 1, 0], [1, 0, 2, 0]):
+            shared = ExplorerScriptSsbCompiler("$PERFORMANCE_PROGRESS_LIST", [])
+            done = []
+            for i in order:
+                # lookup paths are constructor arguments; reuse with the same (empty) list and relative imports only
+                try:
+                    got = comp(shared, mains[i])
+                except Exception as e:  # noqa
+                    got = ("raised", type(e).__name__)
+                want = fresh[i] if got[0] != "raised" else None
+                if got[0] == "raised":
+                    # "inc/more.exps" needs a lookup path: expected to be rejected identically by a fresh compiler
+                    try:
+                        comp(ExplorerScriptSsbCompiler("$PERFORMANCE_PROGRESS_LIST", []), mains[i])
+                        return f"reused compiler rejects {mains[i][len(d):]} after {done} but a fresh one accepts it"
+                    except Exception as e2:  # noqa
+                        if type(e2).__name__ != got[1]:
+                            return f"reused compiler raises {got[1]}, fresh one {type(e2).__name__}"
+                elif got != want:
+                    return (f"compiling {mains[i][len(d):]} on a compiler that compiled {done} before gives ops "
+                            f"{got[0]} / imports {got[2]}; a fresh compiler gives {want[0]} / {want[2]}")
+                done.append(mains[i][len(d):])
+        return None
+    finally:
+        shutil.rmtree(d, ignore_errors=True)
+
+
 def _history(name: str, seed_and_tier: Any) -> dict[str, Any]:
     from harness import pC01, pC02
 
     seed, tier, shard, nshards = seed_and_tier
     progs = [p for i, (_n, p) in enumerate(programs(tier, seed)) if i % nshards == shard]
+    progs += [p for i, (_n, p) in enumerate(collision_programs()) if i % nshards in (shard, (shard + 5) % nshards)]
     signal.signal(signal.SIGALRM, _alarm)
 
     def one(p: Any, reuse: Any = None) -> Any:
@@ -51,22 +186,46 @@ def _history(name: str, seed_and_tier: Any) -> dict[str, Any]:
             signal.alarm(0)
         return res
 
-    first = [one(p) for p in progs]
-    order = list(range(len(progs)))
-    random.Random(seed + 1).shuffle(order)
+    one(progs[0])  # import everything before the snapshot
+    snap = _snapshot()
+    # pass 1: every input on fresh objects with all package-level containers restored to their import-time content
+    first = []
+    for p in progs:
+        _restore(snap)
+        first.append(one(p))
+    _restore(snap)
     from explorerscript.ssb_converting.ssb_compiler import ExplorerScriptSsbCompiler
 
-    shared = ExplorerScriptSsbCompiler("$PERFORMANCE_PROGRESS_LIST", [])
-    second = {}
-    for i in order:
-        second[i] = one(progs[i], reuse=shared)
-    diffs = [i for i in range(len(progs)) if first[i] != second[i] and "TIMEOUT" not in first[i] and "TIMEOUT" not in second[i]]
-    if diffs:
-        i = diffs[0]
-        return {"status": "harness_error",
-                "what": f"result depends on the history: input {i} of shard {shard} differs between a fresh call and a call "
-                        f"after {order.index(i)} other inputs on a reused compiler:\n{es_ast.to_text(progs[i])[:500]}"}
-    return {"status": "ok", "routines": 0, "equal": 0, "sample": {"inputs": len(progs), "orders": 2, "differences": 0}}
+    def differ(i: int, r: Any) -> bool:
+        return first[i] != r and "TIMEOUT" not in first[i] and "TIMEOUT" not in r
+
+    # passes 2-4: state carried over, three different orders, one reused compiler per pass
+    orders = [list(range(len(progs))), list(reversed(range(len(progs)))), list(range(len(progs)))]
+    random.Random(seed + 1).shuffle(orders[2])
+    for oi, order in enumerate(orders):
+        shared = ExplorerScriptSsbCompiler("$PERFORMANCE_PROGRESS_LIST", [])
+        for n_before, i in enumerate(order):
+            r = one(progs[i], reuse=shared)
+            if differ(i, r):
+                which = [k for k in range(len(first[i])) if k >= len(r) or first[i][k] != r[k]]
+                part = ["compiled ops", "compile-time source map", "decompiled text", "decompile-time source map"]
+                return {"status": "violation", "kind": "history", "program": list(seed_and_tier),
+                        "what": f"result depends on the history: {', '.join(part[k] for k in which if k < 4)} of an input differ "
+                                f"between a call in a pristine package state and the same call after {n_before} other inputs "
+                                f"(order {oi}, shard {shard}, reused compiler):\n{es_ast.to_text(progs[i])[:400]}",
+                        "witness": {"shard": shard, "order": oi, "position": n_before,
+                                    "pristine": repr(first[i][2] if len(first[i]) > 2 else first[i])[:400],
+                                    "after_history": repr(r[2] if len(r) > 2 else r)[:400]}}
+    if shard == 0:
+        err = _import_histories()
+        if err:
+            return {"status": "violation", "kind": "history-imports", "program": list(seed_and_tier), "what": err,
+                    "witness": {"what": err[:600]}}
+    return {"status": "ok", "routines": 0, "equal": 0, "sample": {"inputs": len(progs), "orders": 4, "differences": 0}}
+
+
+def replay(name: str, prog_repr: str, witness: Any) -> bool:
+    return _history(name, tuple(trun.parse_prog(prog_repr)))["status"] != "violation"
 
 
 def run(tier: str, seed: int, known: list[dict[str, Any]]) -> dict[str, Any]:
@@ -77,13 +236,15 @@ def run(tier: str, seed: int, known: list[dict[str, Any]]) -> dict[str, Any]:
     try:
         n = 16
         items = [(f"history.{k}", (seed, tier, k, n)) for k in range(n)]
-        r = trun.run_family("C11", "C11.E", _history, items, known, None, bounds="two call orders per shard in one process")
+        r = trun.run_family("C11", "C11.E", _history, items, known, None,
+                            bounds="per shard: one pristine pass (package-level containers restored before every call) and "
+                                   "three carried passes (given / reversed / shuffled order) on reused compilers, in one process")
     finally:
         T.TASK_TIMEOUT = old
-    r["engine"] = "V"
-    tot = sum(s.get("inputs", 0) for s in r["samples"])
-    r["headline"] = (f"16 processes x 2 call orders over the F1-F4 programs (compile on a reused compiler + decompile): "
-                     f"{len(r['harness_errors'])} history-dependent results (model validation)")
+    r["engine"] = "E"
+    r["headline"] = (f"16 processes x (1 pristine + 3 carried call orders) over the F1-F4 programs + {len(collision_programs())} "
+                     f"shared-text programs + import histories across directories: {len(r['violations'])} history-dependent "
+                     f"results, {len(r['harness_errors'])} harness errors")
     r["obligations"] = r["discharged"] = r["distinct_nontrivial"] = 0
     return r
 
